@@ -112,14 +112,14 @@ func solveAll(obs []*Obligation, dir string, timeoutS int, keep bool) {
 					}
 				}
 			} else {
-				qf, full := q.Instantiated(false)
+				qf, full := q.Instantiated(0)
 				done := false
-				for round := 0; round < 2 && !done && qf != nil; round++ {
+				for round := 0; round < 3 && !done && qf != nil; round++ {
 					suffix := ".inst"
-					if round == 1 {
-						// second attempt: also instantiate at sub-terms of index expressions
-						qf, _ = q.Instantiated(true)
-						suffix = ".inst2"
+					if round >= 1 {
+						// further attempts: also instantiate at sub-terms of index expressions, then at width casts
+						qf, _ = q.Instantiated(round)
+						suffix = fmt.Sprintf(".inst%d", round+1)
 						if qf == nil {
 							break
 						}
